@@ -22,7 +22,7 @@ KEYMAP = {
     'datagram-not-sent-or-duplicated': ['C16'], 'dgram-': ['C16'],
     'path-challenge-unpadded': ['C13'], 'path-response-unpadded': ['C13'], 'loss-probe-oversized': ['C13'],
     'migration-': ['C15'], 'path-': ['C15'],
-    'determinism-': ['C20'], 'shift-': ['C20'], 'spurious-': ['C20'], 'timeout-settle': ['C20'], 'steps-without-time-advance': ['C20', 'C03'],
+    'determinism-': ['C20'], 'shift-': ['C20'], 'spurious-': ['C20'], 'timeout-settle': ['C20'], 'steps-without-time-advance': ['C20', 'C03'], 'execution-exceeded-trace-budget': ['*'],
     'zero-rtt-rejected-credit-update-lost': ['C17', 'C02'], 'zero-rtt-rejected-datagram-exceeds-new-limit': ['C17', 'C02'],
     'zero-rtt-rejected-limits-not-fresh': ['C17', 'C05'], 'zero-rtt-accepted-limits-not-raised': ['C17', 'C05'],
     'zero-rtt-': ['C17'],
